@@ -539,7 +539,8 @@ def check_property(pid, P, MODELS, tier, seed):
             log("  monitor %s (%s) failed at step %d of a %d-call history on model %s; last call %s -> %s"
                 % (v["mon"], v["key"], v["i"], len(v["ops"]), model, json.dumps(v["ops"][-1]) if v["ops"] else "-",
                    json.dumps(v.get("last"))))
-    write_evidence(pid, P, MODELS, tier, seed, results, len(new), matched, time.time() - t0)
+    if not os.environ.get("VERIF_ONLY_MODEL"):   # (a development run with one model only is no evidence for the property)
+        write_evidence(pid, P, MODELS, tier, seed, results, len(new), matched, time.time() - t0)
     vac = [v for r in results for v in r.get("vacuity", [])]
     if vac and not new:
         # a coverage hole is a tool error, but never hides a violation that was found
